@@ -224,6 +224,13 @@ Definition judge_rule (case obs : sx) : sx :=
               match fixed_ok, (x <- fld "bin_width" case ;; d_q x), (x <- fld "want_shift" case ;; d_opt d_q x) with
               | Some (w, sh, g), Some bw, Some ws => g && Qceqb w bw && match ws with Some s => Qceqb sh s | None => true end
               | _, _, _ => false end
+            else if String.eqb meth "fixed_min" then
+              (* FixedWidthBinning(bin_width=w, bin_count=k, min=m): k equal bins on the grid, the first one starting at m *)
+              match fixed_ok, (x <- fld "bin_width" case ;; d_q x), (x <- fld "bin_count" case ;; d_nat x), (x <- fld "min" case ;; d_q x) with
+              | Some (w, sh, g), Some bw, Some k, Some mn =>
+                  g && Qceqb w bw && Nat.eqb (length l) k && near (first_edge l) mn (Qcmax (Qcabs mn) w) &&
+                  near (last_edge l) (mn + qz (Z.of_nat k) * w) (Qcmax (Qcabs mn + qz (Z.of_nat k) * w) w)
+              | _, _, _, _ => false end
             else if String.eqb meth "integer" then
               match fixed_ok, (x <- fld "bin_width" case ;; d_q x) with
               | Some (w, sh, g), Some bw => g && Qceqb w bw && Qceqb sh (mkq 1 2) &&
